@@ -177,6 +177,19 @@ def access_points(watched_names):
     return points
 
 
+def rebound_initial_values(watched_names):
+    """(module, name, value) for every watched name that is not a container / context variable:
+    plain module globals that library code rebinds.  Restored before every execution."""
+    mods = lib_modules()
+    out = []
+    for mn, n in sorted(watched_names):
+        o = getattr(mods[mn], n, None)
+        if isinstance(o, (dict, list, set, contextvars.ContextVar, threading.local)):
+            continue
+        out.append((mods[mn], n, o))
+    return out
+
+
 def shared_containers(watched_names):
     mods = lib_modules()
     out = []
